@@ -5,6 +5,8 @@ under every from()), replays every case on the model and on the history spec, an
   * observed = model (correspondence).
 -/
 import Kap.Spec.C02
+import Kap.Model.C02Bounded
+import Kap.Gen.C02Cap
 open Kap Kap.C02
 
 namespace Kap.C02.Drv
@@ -47,6 +49,12 @@ def parseOp (ts : List String) : Option Op :=
   | ["delete", id] => do pure (.delete (← unesc id))
   | ["write", db, rp, pts] => do pure (.write (← unesc db) (← unesc rp) (← parsePoints pts))
   | _ => none
+
+/-- capacity of the task input edges, as regenerated from the source -/
+def edgeCap? : Option Nat :=
+  match Gen.edgeCap with
+  | .known n => some n
+  | .unknown _ => none
 
 def renderIds (l : List Nat) : String := if l.isEmpty then "-" else ",".intercalate (l.map toString)
 
@@ -133,6 +141,7 @@ def expectObs (st : St) (op : Op) : String :=
   | _ => if st.model.sentOnClosed then "panic" else "ok"
 
 def judge (_id : String) (lines : Array String) : Verdict := Id.run do
+  let some cap := edgeCap? | return .badop "the edge capacity was not recognised in the source (Kap/Gen/C02Cap.lean)"
   let mut st : St := {}
   for l in lines do
     let (opT, obs) := splitObs (tokens l)
@@ -160,11 +169,14 @@ def judge (_id : String) (lines : Array String) : Verdict := Id.run do
       match parseOp opT with
       | some op =>
         st := noteOp st op
-        let model' := step st.model op
-        let want := match op with
+        -- the bounded model with the capacity read from the source (theorem bounded_edges_never_block: = `step`, never blocked)
+        let b' := stepB cap { tm := st.model } op
+        let model' := b'.tm
+        let want := if b'.blocked then "hang" else match op with
           | .start _ | .startfail _ => expectObs st op            -- decided on the state before the call
           | _ => expectObs { st with model := model' } op
-        if obs == ["hang"] then
+        if obs == [want] then pure ()
+        else if obs == ["hang"] then
           -- the call never returned: keep judging what the sinks recorded (a loss is a SPECFAIL), report the hang otherwise
           if st.hung.isNone then st := { st with hung := some s!"{" ".intercalate (opT.take 2)} did not return" }
         else if obs != [want] then
